@@ -43,6 +43,10 @@ class Contract(object):
         self.skip_body = kw.pop("skip_body", False)      # only the expr_eq obligations of this function are generated (labelled)
         self.expr_eq = list(kw.pop("expr_eq", []))       # [(code expression text, {free var: Ty}, spec expression)]
         self.no_merge = kw.pop("no_merge", ())           # '*' or line numbers of ifs whose branches are kept as separate paths
+        # what a caller (in particular the recursive call) sees instead of `ensures`: used where the spec function a recursive
+        # function is compared with is DEFINED as that function's own result (representative choice); `ensures` is then the
+        # defining equation, proved with the recursive calls replaced by the spec function (structural induction, meta-step)
+        self.call_ensures = kw.pop("call_ensures", None)
         self.empties = kw.pop("empties", {})             # 'set'/'list'/'dict' -> type of untyped empty displays                    # clause -> known-finding condition
         if kw:
             raise TypeError("unknown contract keys: %s" % sorted(kw))
